@@ -808,14 +808,19 @@ func c03ComputeNewValue(c *core.Ctx, R string) {
 	if fn := an.FindFunc(ml, "computeNewValue"); fn != nil {
 		c.Analysed(fn.String())
 		ok := false
-		for _, call := range fn.Calls(false) {
-			if call.Func() != nil && call.Func().Name() == "Merge" && fn.Canon(call.Expr.Args[0]) == "p0" && fn.Canon(call.Expr.Args[1]) == "p3" {
+		merges := 0
+		for _, call := range fn.Calls(true) {
+			if call.Func() == nil || call.Func().Name() != "Merge" || len(call.Expr.Args) != 2 {
+				continue
+			}
+			merges++
+			if call.In == fn && fn.Canon(call.Expr.Args[0]) == "p0" && fn.Canon(call.Expr.Args[1]) == "p3" {
 				if s, isSel := call.Expr.Fun.(*ast.SelectorExpr); isSel && fn.Canon(s.X) == "p2" {
 					ok = true
 				}
 			}
 		}
-		c.Check(ok, R, "memberlist:computeNewValue", fn.Pos(), "computeNewValue merges as oldVal.Merge(incoming, cas) with its parameters unchanged", 1)
+		c.Check(ok && merges == 1, R, "memberlist:computeNewValue", fn.Pos(), fmt.Sprintf("computeNewValue merges once (%d Merge calls), as oldVal.Merge(incoming, cas) with its parameters unchanged — the stored value is the receiver, so the change returned describes what the store learned", merges), 1)
 	}
 	if fn := an.FindFunc(ml, "KV.mergeValueForKey"); fn != nil {
 		c.Analysed(fn.String())
@@ -827,7 +832,119 @@ func c03ComputeNewValue(c *core.Ctx, R string) {
 			ok = flag == "(p3 > 0)" || flag == "(0 < p3)"
 		}
 		c.Check(ok, R, "memberlist:mergeValueForKey:origin", fn.Pos(), "the origin flag given to the merge is derived from the CAS version alone: "+flag+" (must be casVersion > 0)", 1)
+		c03NoChangeExits(c, R, fn, calls)
 	} else {
 		c.Miss(R, "func=KV.mergeValueForKey", "not found")
 	}
+}
+
+// c03NoChangeExits: after the merge, mergeValueForKey may answer "no change" (nil change, nil error) and
+// skip the store/notify/re-gossip. Each such exit must be decided by the emptiness of the change's own
+// content, measured after the last RemoveTombstones on the change that precedes the exit — not by a
+// count taken earlier or from another value.
+func c03NoChangeExits(c *core.Ctx, R string, fn *an.Fn, calls []an.Call) {
+	if len(calls) != 1 {
+		return
+	}
+	g := fn.Graph()
+	// the variable that receives the merge's change
+	var chObj types.Object
+	fn.InspectShallow(func(n ast.Node) bool {
+		if as, ok := n.(*ast.AssignStmt); ok && len(as.Rhs) == 1 && an.Unparen(as.Rhs[0]) == ast.Expr(calls[0].Expr) && len(as.Lhs) == 3 {
+			chObj = fn.ObjOf(as.Lhs[1])
+		}
+		return true
+	})
+	if chObj == nil {
+		c.Undec(R, "memberlist:mergeValueForKey:no-change", fn.Pos(), "the variable receiving computeNewValue's change was not found")
+		return
+	}
+	isChange := func(e ast.Expr) bool {
+		id, ok := an.Unparen(e).(*ast.Ident)
+		return ok && fn.ObjOf(id) == chObj
+	}
+	var rts []*ast.CallExpr // RemoveTombstones on the change
+	for _, call := range fn.Calls(false) {
+		if sel, ok := call.Expr.Fun.(*ast.SelectorExpr); ok && sel.Sel.Name == "RemoveTombstones" && isChange(sel.X) {
+			rts = append(rts, call.Expr)
+		}
+	}
+	// measuresChange: len(change.MergeContent()), possibly through a local all of whose definitions are 0 or that length
+	var measure func(e ast.Expr, after token.Pos) bool
+	measure = func(e ast.Expr, after token.Pos) bool {
+		e = an.Unparen(e)
+		if call, ok := e.(*ast.CallExpr); ok {
+			if id, ok := call.Fun.(*ast.Ident); ok && id.Name == "len" && len(call.Args) == 1 {
+				if mc, ok := an.Unparen(call.Args[0]).(*ast.CallExpr); ok {
+					if sel, ok := mc.Fun.(*ast.SelectorExpr); ok && sel.Sel.Name == "MergeContent" && isChange(sel.X) {
+						return e.Pos() > after
+					}
+				}
+			}
+			return false
+		}
+		if id, ok := e.(*ast.Ident); ok {
+			defs := fn.DefSites(fn.ObjOf(id))
+			n := 0
+			for _, d := range defs {
+				if d.Zero || d.Canon == "0" {
+					continue
+				}
+				if d.Expr == nil || !measure(d.Expr, after) {
+					return false
+				}
+				n++
+			}
+			return n > 0
+		}
+		return false
+	}
+	n := 0
+	var bad []string
+	for _, b := range g.Blocks {
+		r := an.ReturnOf(b)
+		if r == nil || len(r.Results) != 5 || fn.Canon(r.Results[0]) != "nil" || fn.Canon(r.Results[4]) != "nil" || !g.NodeBefore(calls[0].Expr, r) {
+			continue
+		}
+		n++
+		var after token.Pos
+		for _, rt := range rts {
+			if g.NodeBefore(rt, r) && rt.Pos() > after {
+				after = rt.Pos()
+			}
+		}
+		// innermost if whose then-branch contains the return
+		var guard ast.Expr
+		fn.InspectShallow(func(x ast.Node) bool {
+			if is, ok := x.(*ast.IfStmt); ok && an.InNode(is.Body, r) {
+				guard = is.Cond
+			}
+			return true
+		})
+		okGuard := false
+		if guard != nil {
+			for _, cj := range conjuncts(guard) {
+				for _, dj := range disjuncts(cj) {
+					if be, ok := an.Unparen(dj).(*ast.BinaryExpr); ok && (be.Op == token.EQL || be.Op == token.LEQ || be.Op == token.LSS) {
+						if (fn.Canon(be.Y) == "0" || fn.Canon(be.Y) == "1") && measure(be.X, after) {
+							okGuard = true
+						}
+					}
+				}
+			}
+		}
+		if !okGuard {
+			bad = append(bad, fmt.Sprintf("line %d (guard %s)", c.Prog.Fset.Position(r.Pos()).Line, types.ExprString(guard)))
+		}
+	}
+	c.Check(n > 0 && len(bad) == 0, R, "memberlist:mergeValueForKey:no-change", fn.Pos(), fmt.Sprintf("%d 'no change' exits after the merge, each decided by len(change.MergeContent()) measured after the last tombstone removal on the change; others: %v", n, bad), n)
+}
+
+// disjuncts splits e at top-level || operators.
+func disjuncts(e ast.Expr) []ast.Expr {
+	e = an.Unparen(e)
+	if b, ok := e.(*ast.BinaryExpr); ok && b.Op == token.LOR {
+		return append(disjuncts(b.X), disjuncts(b.Y)...)
+	}
+	return []ast.Expr{e}
 }
